@@ -88,6 +88,11 @@ class ActionSummary(object):
     orig_table_id = self._table_renames.original_name(table_id)
     orig_col_id = table_delta.column_renames.original_name(col_id)
     keyed_table_id = table_id     # self._tables is keyed by the latest (possibly defunct) name
+    # Whether the table or the column came into being within this bundle (it may be gone again by
+    # now, e.g. a column added to a table that the same bundle then removes). Asked with the latest
+    # names, since a defunct name shares its root with a namesake created later.
+    created = (self._table_renames.is_created(table_id) or
+               table_delta.column_renames.is_created(col_id))
     table_id = root_name(table_id)
     col_id = root_name(col_id)
 
@@ -101,8 +106,8 @@ class ActionSummary(object):
       if row_ids_after:
         out_stored.append(update_action(row_ids_after, 1))
 
-    if self.is_created(table_id, col_id) and not defunct:
-      # A newly-created column, and not replacing a defunct one. Don't generate undo actions.
+    if created:
+      # A column that did not exist before this bundle: there is nothing for undo to restore.
       return
 
     ## Maybe add one or two undo update actions for rows that existed before the change.
